@@ -80,10 +80,10 @@ type plan struct {
 	// late: from the second run on, resolving (lateTyp, lateField) waits for the
 	// run's deadline to pass (ignoring it), then fails. The subscription's
 	// makeCtx gives re-runs a deadline.
-	late                bool
-	lateTyp, lateField  string
-	runs                int64
-	lateFailures        int64
+	late               bool
+	lateTyp, lateField string
+	runs               int64
+	lateFailures       int64
 }
 
 type planKey struct{}
@@ -199,6 +199,7 @@ func buildSchemas(run *vlib.Run, sd *gen.SchemaDesc) []*built {
 
 type scenario struct {
 	doc   *gen.Doc
+	shape string // used when doc is nil (special_test.go)
 	text  string
 	vars  map[string]interface{}
 	w     *gen.World
@@ -349,7 +350,8 @@ func TestCheck(t *testing.T) {
 	sd := gen.Zoo()
 	run.Rule("queries generated over the zoo schema; a seeded failure plan makes 0-3 (type, field, object-set) resolutions fail with plain error / SafeError / ClientError / WrapAsSafeError / safe wrapped in plain / panic, mostly on the selected path; " +
 		"executed under 5 mode configurations (plain, Expensive, batch, mixed incl. fallback/parallel) x schedulers, bare and inside a Rerunner. Execute oracle: failing resolution on the sequential trace => (nil, err), err raised by a planned failure, sanitised errors unprefixed, others prefixed with the response path of an instance of that field; no failure on the trace => result equals the reference. " +
-		"Websocket oracle: every error envelope is the exact safe message or the generic string and contains no unsafe token; an initially failing subscription gets exactly one error envelope, one Unsubscribe, then silence under invalidations. Non-trivial = a failure on the selected path; distinct by (query shape, failure kinds, modes of failing fields).")
+		"A second schema adds the resolver forms the zoo lacks - paginated field funcs managed by thunder or by the resolver (failing with zero or populated return values), resolvers below a connection's edges, Expensive ones, and mutations (over the websocket as mutate messages) - under the same oracles. " +
+		"Websocket oracle: every error envelope is the exact safe message of a failure on the path, or the generic string (only when some failure on the path is not client-safe), and contains no unsafe token; an initially failing subscription gets exactly one error envelope, one Unsubscribe, then silence under invalidations. Non-trivial = a failure on the selected path; distinct by (query shape, failure kinds, modes of failing fields).")
 	run.Assume("error path separator is not asserted (tokens split on . / space [ ])")
 	schemas := buildSchemas(run, sd)
 	if len(schemas) == 0 {
@@ -452,6 +454,9 @@ func TestCheck(t *testing.T) {
 		}
 		wsScenario(run, 1000000+i, sc, b)
 	})
+
+	// ---- resolver forms outside the zoo: paginated field funcs, mutations ----
+	specialLeg(run)
 }
 
 func execute(schema *graphql.Schema, sched graphql.WorkScheduler, sc *scenario, inRerunner bool) (interface{}, error, string) {
@@ -566,10 +571,52 @@ func (l *subLogger) Unsubscribe(ctx context.Context, id string) {
 	atomic.AddInt64(&l.events, 1)
 }
 
+func (sc *scenario) shapeText() string {
+	if sc.doc != nil {
+		return sc.doc.Shape()
+	}
+	return sc.shape
+}
+
+// checkClientMessage applies the websocket oracle to one error message: it is
+// the exact message of a planned client-safe failure on the path, or the
+// generic message - the latter only if some failure on the path is not
+// client-safe - and no text of a non-safe error occurs in the raw envelope.
+func checkClientMessage(sc *scenario, msg, raw string) string {
+	ok, allSafe := false, len(sc.onPath) > 0
+	for _, f := range sc.onPath {
+		sm := f.safeMessage()
+		if sm == "" {
+			allSafe = false
+		} else if msg == sm {
+			ok = true
+		}
+	}
+	if msg == genericMessage && !allSafe {
+		ok = true
+	}
+	if !ok {
+		if msg == genericMessage {
+			return "every failing resolver on the path raises a client-safe error, yet the client got the generic message instead of a safe one"
+		}
+		return "error envelope is neither the exact message of a planned safe error nor the generic message"
+	}
+	for _, f := range sc.plan.fails {
+		if strings.Contains(raw, f.secret) || (f.safeMessage() == "" && strings.Contains(raw, f.token)) {
+			return "error envelope leaks text of an error that is not marked client-safe"
+		}
+	}
+	return ""
+}
+
 func wsScenario(run *vlib.Run, caseIdx int, sc *scenario, b *built) {
+	wsScenarioCtx(run, caseIdx, sc, b, context.Background())
+}
+
+func wsScenarioCtx(run *vlib.Run, caseIdx int, sc *scenario, b *built, parent context.Context) {
 	sock := newFakeSocket()
 	lg := &subLogger{subs: map[string]int{}, unsubs: map[string]int{}}
-	base := gen.WithUseBatch(gen.WithWorld(context.Background(), sc.w), true)
+	base := gen.WithUseBatch(gen.WithWorld(parent, sc.w), true)
 	ctx, cancel := context.WithCancel(base)
 	defer cancel()
 	conn := graphql.CreateConnection(ctx, sock, b.schema,
@@ -640,7 +687,7 @@ func wsScenario(run *vlib.Run, caseIdx int, sc *scenario, b *built) {
 	for _, f := range sc.onPath {
 		kinds += kindNames[f.kind] + ","
 	}
-	run.Case("ws|"+sc.doc.Shape()+"|"+kinds, failing)
+	run.Case("ws|"+sc.shapeText()+"|"+kinds, failing)
 	run.Count("ws_scenarios", 1)
 	var nErr, nUpd int
 	var client interface{} = vlib.Undefined{}
@@ -661,23 +708,10 @@ func wsScenario(run *vlib.Run, caseIdx int, sc *scenario, b *built) {
 			nErr++
 			var msg string
 			_ = json.Unmarshal(e.Message, &msg)
-			ok := msg == genericMessage
-			for _, f := range sc.onPath {
-				if sm := f.safeMessage(); sm != "" && msg == sm {
-					ok = true
-				}
-			}
-			if !ok {
-				wit["what"] = "error envelope is neither the exact message of a planned safe error nor the generic message"
+			if why := checkClientMessage(sc, msg, string(e.Message)); why != "" {
+				wit["what"] = why
 				wit["message"] = msg
 				run.Violation(caseIdx, "", wit)
-			}
-			for _, f := range sc.plan.fails {
-				if strings.Contains(string(e.Message), f.secret) || (f.safeMessage() == "" && strings.Contains(string(e.Message), f.token)) {
-					wit["what"] = "error envelope leaks text of an error that is not marked client-safe"
-					wit["message"] = msg
-					run.Violation(caseIdx, "", wit)
-				}
 			}
 		case "update":
 			nUpd++
